@@ -43,6 +43,11 @@ def _classes():
         seen.add(c)
         out.append(c)
         stack.extend(c.__subclasses__())
+    # per-interpreter holders that are not macros: a class attribute there is shared by all documents as well
+    import plasTeX.Context, plasTeX.TeX
+    for c in (plasTeX.Context.Context, plasTeX.TeX.TeX, plasTeX.TeXDocument):
+        if c not in seen:
+            out.append(c)
     return out
 
 
